@@ -9,12 +9,16 @@
    when a document starts.  End to end through the main loop, for every
    token list of plain text, undeclared control words, comments and braces:
    the list grows by exactly the undeclared names, once each, in order of
-   first use (C19_plain_text_with_unknown_macros).  Not proved: that no other step of the expander
+   first use (C19_plain_text_with_unknown_macros).  Environments, at the
+   site: \begin{name} with a name in plain characters that is not declared
+   appends the name once (not in maths mode), \end{name} records nothing,
+   both leave the declarations alone and one action token
+   (C19_undeclared_environment, C19_end_records_nothing).  Not proved: that no other step of the expander
    changes the list, and which uses the expander reaches (comments, skipped
    regions); compared with the implementation and decided by the oracle of
    harness/props/c19.py on every case of the parser stream. *)
 From Coq Require Import String.
-From YV Require Import PyBase Token PState Parser Expand Exec ExpandSites ExecPlain ExecUnk ExecArgs Catalogue.
+From YV Require Import PyBase Token PState Parser Expand Exec ExpandSites ExecPlain ExecUnk ExecArgs EnvSites Catalogue.
 Open Scope Z_scope.
 
 Theorem C19_add_once_in_order : forall l name,
@@ -53,7 +57,7 @@ Theorem C19_plain_text_with_unknown_macros : forall rd fuel toks st st' out,
   macros st' = macros st.
 Proof.
   exact (fun rd fuel toks st st' out =>
-           exec_args_text py_tables rd (eq_refl true) (fun c => eq_refl) fuel toks st st' out
+           exec_args_text py_tables rd (eq_refl true) (fun c => eq_refl) (conj eq_refl eq_refl) fuel toks st st' out
                           (eq_refl true)).
 Qed.
 Print Assumptions C19_plain_text_with_unknown_macros.
@@ -64,6 +68,37 @@ Theorem C19_list_once_in_order : forall nl l,
   exists r, fold_left add_unknown nl l = l ++ r.
 Proof. exact fold_add_unknown_nodup. Qed.
 Print Assumptions C19_list_once_in_order.
+
+(* environments: the name is spelled by plain characters in the group behind
+   \begin; `exec py_tables rd k` is the expander the name is expanded with *)
+Theorem C19_undeclared_environment : forall rd k fuel st t o a c l math,
+  lb o -> rb c -> Forall (etok py_tables) a -> a <> [] -> (length a < k)%nat ->
+  assoc (spelled a) (environs st) = None ->
+  exists st',
+    begin_environment py_tables rd (exec py_tables rd k) fuel st (o :: a ++ c :: l) t math
+      = Ok (st', ([ActionT (pos t)], l)) /\
+    unknowns st' = (if math then unknowns st else add_unknown (unknowns st) (spelled a)) /\
+    macros st' = macros st /\ environs st' = environs st.
+Proof. exact (fun rd => begin_undeclared py_tables rd (eq_refl true)). Qed.
+Print Assumptions C19_undeclared_environment.
+
+Theorem C19_end_records_nothing : forall rd k fuel st t o a c l,
+  lb o -> rb c -> Forall (etok py_tables) a -> a <> [] -> (length a < k)%nat ->
+  assoc (spelled a) (environs st) = None ->
+  end_environment py_tables rd (exec py_tables rd k) fuel st (o :: a ++ c :: l) t None
+    = Ok (st, ([ActionT (pos t)], false, l)).
+Proof. exact (fun rd => end_undeclared py_tables rd (eq_refl true)). Qed.
+Print Assumptions C19_end_records_nothing.
+
+(* the premises are met by the scan of \begin{ab} ... *)
+Example C19_environment_example :
+  let toks := fst (Scanner.scan (t_scan py_tables) (s2l "x \begin{ab} y \end{ab} \begin{ab}")) in
+  match exec py_tables (fun _ => None) 100 (TSeq toks None [])
+             (init_state py_tables (s2l "en") false false true) with
+  | Ok (st', ASeq out _) => Some (unknowns st', fst (Utils.get_txt_pos out))
+  | _ => None end
+  = Some ([s2l "ab"], s2l "x  y  ").
+Proof. vm_compute. reflexivity. Qed.
 
 (* a document of the class, run through the main loop *)
 Example C19_class_example :
